@@ -54,11 +54,11 @@ func diffSnap(a, b StoreSnap) []KeyChange {
 
 // key-layout classes of the provider store (written from x/ccv/provider/types/keys.go)
 const (
-	klGlobal   = iota // not per consumer
-	klLegacy          // prefix | consumerId
-	klLenPref         // prefix | len(8) | consumerId | ...
-	klByValue         // prefix | <other id>, value = consumer id
-	klTimeQ           // prefix | time, value = ConsumerIds
+	klGlobal  = iota // not per consumer
+	klLegacy         // prefix | consumerId
+	klLenPref        // prefix | len(8) | consumerId | ...
+	klByValue        // prefix | <other id>, value = consumer id
+	klTimeQ          // prefix | time, value = ConsumerIds
 )
 
 var providerKeyLayout = map[byte]int{
